@@ -190,21 +190,18 @@ def incoming(snd, kind):
     return Obj('wiremsg', topic_b=tb, env=Obj('envrec', d=d), parts=parts), assum
 
 
-class AssemblySummary:
-    """`for topic, frame in recvd.items(): ... data[topic] = frame` over an order-abstracted dict: summarised as the pointwise map
-    (map-loop rule, DESIGN 2.3); the remap / duplicate-topic logic of this loop body is verified on concrete-shaped dicts by AssemblyUnit"""
-    def __init__(self, world):
-        self.world = world
-
-    def summary(self, ex, env, s):
-        it = ex.ev(s.iter, env)
-        snd = env.lookup('sender')
-        if isinstance(it, View) and isinstance(it.d, SDict):
-            ex.__dict__.setdefault('assembled', []).append((snd, SDict(it.d.keys, it.d.vals)))
-        elif isinstance(it, tuple) and not it:
-            pass
-        else:
-            raise Unsupported(f'assembly loop over {it!r}')
+def assembly_region(W):
+    """the statements of recv between `data = {}` and `self.new_recv()` assemble the returned dict from every source's set (and apply the topic map).  In the protocol VCs
+    the region is summarised as the pointwise snapshot of every source's set; its own correctness (remap applied once, duplicates rejected) is proved by AssemblyUnit on
+    concrete-shaped dicts."""
+    def cb(ex, env, stmt):
+        snap = []
+        for snd in W.senders:
+            isnone, d = opt_parts(snd.f['recvd'])
+            if d is not None:
+                snap.append((snd, isnone, SDict(d.keys, d.vals)))
+        ex.assembled = snap
+    return cb
 
 
 def run_recv(shape, dec, props, closures=None):
@@ -279,10 +276,11 @@ def run_recv(shape, dec, props, closures=None):
         @staticmethod
         def explore_body(stack):
             return 'True' not in stack
-    asm_loops = [n for n in ast.walk(extract.load(ZMQ).find('ZMQReceiver.recv')) if isinstance(n, ast.For) and 'recvd.items()' in ast.unparse(n.iter)]
-    if len(asm_loops) != 1:
-        raise Unsupported('contract no longer binds: the data assembly loop of ZMQReceiver.recv was not found')
-    ex.loop_specs = {'True': L1, '(socks := poller.poll(timeout))': L2, 'socks': L3, ex.loop_key(asm_loops[0]): AssemblySummary(W)}
+    recv_src = [ast.unparse(n) for n in ast.walk(extract.load(ZMQ).find('ZMQReceiver.recv')) if isinstance(n, (ast.Assign, ast.Expr))]
+    if recv_src.count('data = {}') != 1 or recv_src.count('self.new_recv()') != 1:
+        raise Unsupported('contract no longer binds: the data assembly region of ZMQReceiver.recv (`data = {}` ... `self.new_recv()`) was not found')
+    ex.loop_specs = {'True': L1, '(socks := poller.poll(timeout))': L2, 'socks': L3}
+    ex.region_hooks = {'data = {}': (assembly_region(W), 'self.new_recv()')}
     ex.W = W
     ex.replay_info = dict(modes=list(shape.modes), ephs=list(shape.ephs), balance=shape.balance)
     try:
@@ -293,21 +291,22 @@ def run_recv(shape, dec, props, closures=None):
             data, st = ret
             ex.oblige('C02.order: returned id >= id expected at entry', st.msg_id >= W.m_entry)
             ex.oblige('C02.order: prev_id updated to the returned id', W.me.f['prev_id'] == st.msg_id)
-            asm = ex.__dict__.get('assembled', [])
-            ex.oblige('C01.assembly: the returned data is assembled from every source that holds a set', len(asm) == sum(1 for _ in asm))
-            for snd_, d in asm:
+            asm = ex.__dict__.get('assembled', None)
+            ex.oblige('C01.assembly: the returned data is assembled in the assembly region from every source that holds a set', asm is not None)
+            asm = asm or []
+            for snd_, isnone_, d in asm:
                 k = W.senders.index(snd_)
                 t = z3.Const('tr', Topic)
                 if not snd_.f['ephemeral']:
                     ex.oblige(f'C01.single_id(source{k}): every frame handed over was published by that source under the returned id',
-                              z3.ForAll([t], z3.Implies(z3.And(d.keys[t], d.vals[t] != OptMsg.none), d.vals[t] == C(snd_.f['_src'], st.msg_id, t))))
+                              z3.Or(isnone_, z3.ForAll([t], z3.Implies(z3.And(d.keys[t], d.vals[t] != OptMsg.none), d.vals[t] == C(snd_.f['_src'], st.msg_id, t)))))
                     if not shape.balance:
                         want = {'all': lambda: z3.And(T(snd_.f['_src'], st.msg_id)[t], z3.Not(hidden(t))), 'star': lambda: T(snd_.f['_src'], st.msg_id)[t],
                                 'explicit': lambda: z3.And(snd_.f['_subk'][t], T(snd_.f['_src'], st.msg_id)[t])}[snd_.f['_mode']]()
                         ex.oblige(f'C01.complete(source{k}): exactly the subscribed topics the source published under that id, never a subset',
-                                  z3.ForAll([t], z3.And(d.keys[t] == want, z3.Implies(d.keys[t], d.vals[t] != OptMsg.none))))
+                                  z3.And(z3.Not(isnone_), z3.ForAll([t], z3.And(d.keys[t] == want, z3.Implies(d.keys[t], d.vals[t] != OptMsg.none)))))
             if shape.balance:
-                act = [z3.Exists([z3.Const('tb', Topic)], z3.And(d.keys[z3.Const('tb', Topic)], d.vals[z3.Const('tb', Topic)] != OptMsg.none)) for _, d in asm]
+                act = [z3.And(z3.Not(isn), z3.Exists([z3.Const('tb', Topic)], z3.And(d.keys[z3.Const('tb', Topic)], d.vals[z3.Const('tb', Topic)] != OptMsg.none))) for _, isn, d in asm]
                 if len(act) > 1:
                     ex.oblige('C07.join_single_source: a balanced receiver returns the set of ONE source', z3.AtMost(*act, 1))
             # flow control: requests sent by the iteration that returns (prefetch)
